@@ -217,9 +217,9 @@ class ErrorEstimator:
 
                 # Compare with rhs.
                 if M0u0:
-                    result[i] += M0u0(t, x.reshape(2, 1))
+                    result[i] += np.asarray(M0u0(t, x.reshape(2, 1))).item()
                 if g:
-                    result[i] -= g(t, x.reshape(2, 1))
+                    result[i] -= np.asarray(g(t, x.reshape(2, 1))).item()
 
             return result
 
